@@ -148,6 +148,11 @@ func (s *scanner) Length() (uint, error) {
 			length--
 		}
 	}
+	if length > uint(s.dataSize) {
+		// The text ends inside an annotation that is closed implicitly at the
+		// end of input: every closing lexeme moved one step further.
+		length = uint(s.dataSize)
+	}
 	for ; length > 0; length-- {
 		c := s.data.Byte(length - 1)
 		if !bytes.IsBlank(c) {
